@@ -417,7 +417,9 @@ func (p Prop) immutability(r *core.Run, f *fixture, ops []operation, roots []any
 		r.Nontrivial(verifsim.Mix(h.Sum64(), uint64(len(r.T.Rec)), sim.SchedHash))
 	}
 	if r.T.Pos()%5 == 0 || r.Tracing {
-		r.Sample(map[string]any{"mode": "immutability", "operations": nops, "snapshot_every_n_yields": every, "inflight_snapshots": inflight, "snapshot_nodes": verifsim.Nodes(roots), "globals": len(verifsim.Globals), "policies": f.texts, "schema": f.fxName})
+		r.Quiet(func() {
+			r.Sample(map[string]any{"mode": "immutability", "operations": nops, "snapshot_every_n_yields": every, "inflight_snapshots": inflight, "snapshot_nodes": verifsim.Nodes(roots), "globals": len(verifsim.Globals), "policies": f.texts, "schema": f.fxName})
+		})
 	}
 	return nil
 }
